@@ -1080,3 +1080,8 @@ func init() {
 	reg("sort.Slice", ss)
 	reg("sort.SliceStable", ss)
 }
+
+func init() {
+	reg("math/rand.Uint64", func(in *Interp, fr *Frame, fn *ssa.Function, a []Value) Value { return in.ts.Const(0x1234567, 64) })
+	reg("math/rand.Uint32", func(in *Interp, fr *Frame, fn *ssa.Function, a []Value) Value { return in.ts.Const(0x1234567, 32) })
+}
